@@ -6,6 +6,9 @@ import r_wrap
 import r_tables
 import r_action
 import r_counters
+import r_init
+import r_unsafe
+import r_width
 
 
 def _sets(quick, thorough=None):
@@ -33,11 +36,8 @@ NOT_APPLICABLE = {
     # claimed in DESIGN.md, check not built yet in this commit (moved to `checks` as each is armed):
     'C01': 'check under construction (DESIGN.md §5 C01): not yet armed in this commit',
     'C04': 'check under construction (DESIGN.md §5 C04): not yet armed in this commit',
-    'C10': 'check under construction (DESIGN.md §5 C10): not yet armed in this commit',
     'C12': 'check under construction (DESIGN.md §5 C12): not yet armed in this commit',
     'C17': 'check under construction (DESIGN.md §5 C17): not yet armed in this commit',
-    'C19': 'check under construction (DESIGN.md §5 C19): not yet armed in this commit',
-    'C20': 'check under construction (DESIGN.md §5 C20): not yet armed in this commit',
 }
 
 PROPS = {
@@ -159,5 +159,53 @@ PROPS = {
         assumptions=TRUST,
         technique='static analysis: inverse-table agreement extracted from MIR match paths',
         level_text='Text-form round trip and source(kind) wiring decided exactly for all 8 sources and 15 MA kinds.',
+    ),
+    'C10': dict(
+        rules=[r_init.s12_validate_dominates_init],
+        feature_sets=_sets(['default']),
+        explanation=('(S12) in every IndicatorConfig::init (37), each construction of Ok(instance) is dominated by the true branch of a '
+                     'test on self.validate(), the false branch reaches no Ok, and the configuration is not written afterwards: init '
+                     'returns Err whenever validate() is false.'),
+        not_decided=['constructors never panic / overflow for every parameter value, documented too-small lengths give Err, parsers never '
+                     'panic, config-determined panics in next(): rules A01/A02 (interval abstract interpretation) when armed',
+                     'panics in next() that depend on stream values or accumulated state (loop/float invariants): not decided'],
+        assumptions=TRUST,
+        technique='static analysis: dominator / reachability rule on the MIR CFG of init()',
+        level_text='Decides the clause "return Err whenever validate() is false" on all paths of all 37 init functions.',
+    ),
+    'C19': dict(
+        rules=[r_unsafe.s20_unsafe_twins],
+        feature_sets=_sets(['default', 'unsafe']),
+        build_failure_is_violation=True,
+        explanation=('Structural bisimulation between the default and unsafe_performance builds of the same working tree: (1) same items; '
+                     'every function\'s MIR is identical once cfg! selector constants are masked, except feature-selected twin definitions; '
+                     '(2) every unsafe block lies in the arm of a cfg! selector that flips between the two builds (true only with the '
+                     'feature) or in the feature-selected twin helper; no unsafe fn; (3) each diamond is get_unchecked(_mut)(base, i) vs '
+                     '&(mut) base[i] on the same base and index expression; the helper pair is get_unchecked(slice,index) vs &slice[index]; '
+                     '(4) the one non-twin diamond (SMM::next) is reduced by affine-form evaluation with a case split on the order of '
+                     '(index, old_index) to equal block moves (src,dst,count) and the same single store. By induction over any call '
+                     'sequence on which the default build does not panic, both builds are in equal states, the checked access passed its '
+                     'bounds check, hence the unchecked access is in bounds and returns the same reference.'),
+        not_decided=['nothing of the statement beyond the trusted base (documented contracts of get_unchecked, ptr::copy, copy_within)'],
+        assumptions=TRUST + ['contracts of slice::get_unchecked(_mut), ptr::copy (memmove) and slice::copy_within as documented by std'],
+        technique='static analysis: two-build MIR diff, unsafe-site confinement, twin matching on HIR, affine-form block-move equivalence',
+        level_text=('All premises of the bisimulation argument are checked on the IR of both builds: 9 unsafe blocks, 7 diamonds, 1 twin '
+                    'helper, ~1800 bodies compared. Complete for the property as stated, modulo the trusted std contracts.'),
+    ),
+    'C20': dict(
+        rules=[r_width.s21_iso, r_width.s21_ops, r_counters.s08_monotone_counters],
+        feature_sets=_sets(['default', 'u16'], ALL8),
+        build_failure_is_violation=True,
+        explanation=('(a) every requested feature set type-checks; (S21-iso) the u16/u32/u64 builds have the same items and, function by '
+                     'function, the same MIR as the default build up to the PeriodType rename and capacity constants of the form '
+                     'MAX/2^j - k; (S21-ops) every width-sensitive operation on a PeriodType-typed value (narrowing / float cast into it, '
+                     'saturating_add and friends, capacity constants) lies in a constructor-like function (new/validate/init/deserialize/'
+                     'from_parts) or carries a recorded argument; (S08) no narrow monotone position counter.'),
+        not_decided=['definitional equalities beyond length 255 and at single precision (numeric): not decided',
+                     'that width-sensitive operations inside constructors never truncate for admissible parameters: rule A01 when armed'],
+        assumptions=TRUST,
+        technique='static analysis: cross-build MIR isomorphism diff and enumeration of width-sensitive operations',
+        level_text=('The builds are shown to be one program up to the integer type; the finite list of width-sensitive operations is '
+                    'enumerated and each is classified. Numeric equalities for long windows / f32 are not claimed.'),
     ),
 }
